@@ -161,7 +161,8 @@ CLAIMED = {
        'SmtpRelayError.factory, PipeRelay and HttpRelay result classification), for every downstream script: a recipient is reported delivered '
        'only if the connection was made, the handshake completed and the script gave well-formed non-error replies to MAIL, to that RCPT, to DATA '
        'and to the message data (LMTP: to the end-of-data reply that belongs to that recipient, the k-th for k accepted recipients before it); '
-       'a whole-message failure keeps each refused recipient\'s own class and never yields a success; handshake/read failures are failure '
+       'a failure of the whole message never yields a success, and after an accepted MAIL a refused recipient keeps the class of its own reply through it '
+       '(checkReplies_keeps_own, deliver_keeps_own_class; when MAIL itself is refused _fail raises its class for everybody if the pipelined RCPT replies are all of one kind: the model is the code\'s kinds test, fail_sender_refused_example); handshake/read failures are failure '
        'classes; pipe: success only on exit status 0 (per recipient / first process); HTTP: success only on a 2xx status, refused/timeout are '
        'transient; MX relay (Model/Mx.lean): the host list is the resolver\'s answer sorted by priority (a permutation of it), attempt n goes to '
        'record n mod k so the first attempt uses a best-priority host and every host gets its turn, neither MX nor A records / an empty answer / a '
